@@ -19,7 +19,7 @@ def _renderer(kind):
     if kind == "ident":
         return names.dotted, None
     rn = {"clean": names.rho_clean, "adv": names.rho_adversarial, "adv2": names.rho_adversarial2,
-          "adv3": names.rho_adversarial3, "case": names.rho_case}[kind]()
+          "adv3": names.rho_adversarial3, "adv4": names.rho_adversarial4, "case": names.rho_case}[kind]()
     return rn.name, rn.back
 
 
